@@ -31,7 +31,7 @@ LEVEL_NOTE = ("Trusted: the reference model in this file. Not asserted (counted 
 RULE = ("case = definitions + 1-3 calls (entry point, supplied name/kind/value triples); non-trivial = >=2 declared "
         "parameters and at least one supplied value that needs conversion or must be rejected; distinct by sha1(case)")
 ASSUMPTIONS = ["the CLI helper is only driven with shipped algorithm names (it reloads the module by name)"]
-BUDGET = {"quick": {"workers": 4, "examples": 1500, "seconds": 30},
+BUDGET = {"quick": {"workers": 8, "examples": 2000, "seconds": 30},
           "thorough": {"workers": 16, "examples": 15000, "seconds": 400}}
 
 SHIPPED = ["adsa", "amaxsum", "dba", "dpop", "dsa", "dsatuto", "gdba", "maxsum", "maxsum_dynamic", "mgm", "mgm2",
